@@ -2,12 +2,16 @@ from __future__ import annotations
 
 import asyncio
 from dataclasses import dataclass, field
-from typing import TYPE_CHECKING
+from typing import TYPE_CHECKING, Union
 
 if TYPE_CHECKING:
     from datetime import datetime
 
     from repid.data.protocols import ParametersT, RoutingKeyT
+
+# where a message in `processing` was taken from: None - normal queue, "dead" - dead queue,
+# a datetime - the key under which it was filed in the delayed queue
+TakenFromT = Union[None, str, "datetime"]
 
 
 @dataclass(frozen=True)
@@ -23,6 +27,17 @@ class DummyQueue:
     delayed: dict[datetime, list[Message]] = field(default_factory=dict)
     dead: list[Message] = field(default_factory=list)
     processing: set[Message] = field(default_factory=set)
+    taken_from: dict[str, TakenFromT] = field(default_factory=dict)
+
+    def put_back(self, msg: Message) -> None:
+        """Returns a message, which is no longer processed, to the place it was taken from."""
+        origin = self.taken_from.pop(msg.key.id_, None)
+        if origin is None:
+            self.simple.put_nowait(msg)
+        elif origin == "dead":
+            self.dead.append(msg)
+        else:
+            self.delayed.setdefault(origin, []).append(msg)  # type: ignore[arg-type]
 
 
 def wait_until(params: ParametersT | None = None) -> datetime | None:
